@@ -74,9 +74,12 @@ def run_scenario(root, nenf, actions, seed):
                         {'old_alpha': 'role:oldovr%d' % x['k'], 'old_delta': 'role:od'},
                         {},
                         {'alpha': 'role:newovr%d' % x['k']}]
-            if x['fs'].main is not None and (x['k'] + seed) % 2 == 0:
-                # the policy file itself is edited, the directory left alone
-                x['fs'].write_main({'alpha': 'role:mainedit%d_%d' % (idx, x['k']), 'zeta': '@'}, 'yaml')
+            if (x['k'] + seed) % 2 == 0:
+                # the policy file itself is edited (or appears, or is emptied), the directory left alone
+                if x['fs'].main is not None and (x['k'] + seed) % 3 == 0:
+                    x['fs'].write_main({}, 'yaml')           # zero bytes
+                else:
+                    x['fs'].write_main({'alpha': 'role:mainedit%d_%d' % (idx, x['k']), 'zeta': '@'}, 'yaml')
             else:
                 x['fs'].write('policy.d', 'x.yaml', contents[(x['k'] + idx) % 4], 'yaml')
             x['fs'].sync()
